@@ -74,7 +74,36 @@ def _sentinels_enc(f: FuncInfo) -> dict[str, str]:
 def _sentinels_dec(f: FuncInfo) -> dict[str, str]:
     """{wire literal: python-constant-text} from `if value == "7FFF": return None` / `if value in ("31FF", "7FFF"): return None`."""
     out = {}
+    flat = []
     for test, ret in _guarded_returns(f):
+        # `value == A or value == B or <something else>`: each disjunct that is a comparison is a way into the return
+        for t in (test.values if isinstance(test, ast.BoolOp) and isinstance(test.op, ast.Or) else [test]):
+            flat.append((t, ret))
+    # a lookup table of sentinels: `if value in TABLE: return TABLE[value]` / `TABLE.get(value)` with a module-level dict display
+    for st in own_nodes(f.node):
+        if isinstance(st, ast.If) and isinstance(st.test, ast.Compare) and len(st.test.ops) == 1 and isinstance(st.test.ops[0], ast.In) and isinstance(st.test.comparators[0], ast.Name) and st.body and isinstance(st.body[-1], ast.Return):
+            tbl = f.module.tree and next((n.value for n in f.module.tree.body if isinstance(n, (ast.Assign, ast.AnnAssign)) and (n.targets[0] if isinstance(n, ast.Assign) else n.target) is not None and norm(n.targets[0] if isinstance(n, ast.Assign) else n.target) == st.test.comparators[0].id and n.value is not None), None)
+            if isinstance(tbl, ast.Dict):
+                for k, v in zip(tbl.keys, tbl.values):
+                    if isinstance(k, ast.Constant) and isinstance(k.value, str):
+                        out[norm(k)] = norm(v)
+    params_d = {a.arg for a in f.node.args.args}
+    for st in own_nodes(f.node):
+        if isinstance(st, ast.Return) and st.value is not None:
+            v = st.value
+            tname = None
+            if isinstance(v, ast.Subscript) and isinstance(v.value, ast.Name) and isinstance(v.slice, ast.Name) and v.slice.id in params_d:
+                tname = v.value.id
+            elif isinstance(v, ast.Call) and isinstance(v.func, ast.Attribute) and v.func.attr == "get" and isinstance(v.func.value, ast.Name) and v.args and isinstance(v.args[0], ast.Name) and v.args[0].id in params_d:
+                tname = v.func.value.id
+            if tname:
+                tbl = next((n.value for n in f.module.tree.body if isinstance(n, (ast.Assign, ast.AnnAssign)) and n.value is not None and norm(n.targets[0] if isinstance(n, ast.Assign) else n.target) == tname), None)
+                if isinstance(tbl, ast.Dict):
+                    for k, vv in zip(tbl.keys, tbl.values):
+                        # a pure lookup table holds proper values too (00 -> False, C8 -> True): only its None entry is a sentinel
+                        if isinstance(k, ast.Constant) and isinstance(k.value, str) and isinstance(vv, ast.Constant) and vv.value is None:
+                            out[norm(k)] = norm(vv)
+    for test, ret in flat:
         if not (isinstance(test, ast.Compare) and len(test.ops) == 1):
             continue
         op, rhs = test.ops[0], test.comparators[0]
